@@ -415,6 +415,11 @@ class Sim:
         for f in self.plan:
             if f['kind'] == 'F5a':
                 self.irq_ticks[f['tick']] = f
+        # F5p: the request arrives while instruction tick-1 executes, i.e. it is
+        # pending when that instruction completes (in a free run the same as
+        # F5a at `tick`; under the debugger the command may return to the
+        # prompt, or re-enter run(), with the request still pending)
+        self.irq_post = {f['tick']: f for f in self.plan if f['kind'] == 'F5p'}
         self.irq_delivered_at = None
         self.cur_io = None
         self.io_counts = {}
@@ -465,6 +470,9 @@ class Sim:
         self.ticks = n + 1
         self.cur_io = None
         self.impl.pending = None
+        if (n + 1) in self.irq_post and not self.cpu.halted:
+            self.on_fault_fired('F5p')
+            self.deliver_interrupt()
         st = self.cpu.stack
         if st:
             v = st[-1].value
